@@ -438,11 +438,13 @@ class LocalEngine(BaseEngine):
         applied = []
         samples_dict = {}
         batches = self.backend_options.get("batch_size", 0)
+        # `crop` and `space_unroll` are options of the engine, not of the operations
+        op_kwargs = {k: v for k, v in kwargs.items() if k not in ("crop", "space_unroll")}
 
         for cmd in prog.circuit:
             try:
                 # try to apply it to the backend and, if op is a measurement, store it in values
-                val = cmd.op.apply(cmd.reg, self.backend, **kwargs)
+                val = cmd.op.apply(cmd.reg, self.backend, **op_kwargs)
                 if val is not None:
                     for i, r in enumerate(cmd.reg):
                         if batches:
